@@ -90,6 +90,8 @@ Definition fsop_eqb (a b : fsop) : bool :=
   | Rename x1 x2, Rename y1 y2 => String.eqb x1 y1 && String.eqb x2 y2
   | _, _ => false
   end.
+Definition writes_of (l : list fsop) : list (list N) :=
+  flat_map (fun o => match o with Write _ b => [b] | _ => [] end) l.
 Fixpoint ops_eqb (a b : list fsop) : bool :=
   match a, b with
   | [], [] => true
@@ -220,8 +222,13 @@ Definition model_class (store : nat) (old : option (list N)) (new : list N) : op
 Definition check_case (c : case) : bool :=
   match c with
   | COps target tmp data recorded =>
+      (* the recorded sequence is the protocol for SOME splitting of the bytes into write calls (the atomicity
+         theorem holds for every chunking, c11_snapshot_atomic_any_chunking; zero-length writes are no-ops of the
+         model, c11_zero_length_write_is_noop): the write payloads, in place, are the chunks, and together they are
+         the data. Order and presence of open (with its flags: Create), fsync, close, rename are compared exactly. *)
       negb (String.eqb tmp target) (* the atomicity theorem needs a temp name different from the target *) &&
-      ops_eqb recorded (snapshot_ops tmp target data)
+      ops_eqb recorded (snapshot_ops_chunks tmp target (writes_of recorded)) &&
+      bytes_eqb (concat (writes_of recorded)) data
   | CCrash store target old new ops pts =>
       let cls := model_class store old new in
       forallb (fun p => let m := model_image target old ops p in
@@ -259,7 +266,7 @@ Inductive shown :=
 | SMutN (l : list (res (list (string * wmesh)))) | SMutS (l : list (res (list (string * wmeshsil)))).
 Definition show_case (c : case) : shown :=
   match c with
-  | COps target tmp data _ => SOps (snapshot_ops tmp target data)
+  | COps target tmp data recorded => SOps (snapshot_ops_chunks tmp target (writes_of recorded))
   | CCrash store target old new ops pts =>
       let cls := model_class store old new in
       SImgs (map (fun p => let m := model_image target old ops p in
